@@ -1,111 +1,172 @@
 """Per-property documentation used in MANIFEST.json and the evidence files.
 
-Everything here is prose; the set of rules per property comes from the registry."""
+The explanation of a property is composed from the one-line descriptions of the rules that are
+actually registered for it (so it cannot drift from what runs) plus a hand-written statement of what
+is *not* decided."""
 
 _COMMON_NOTE = ('Trusted base: the Python ast module; the type comments of the analysed source (used only to resolve '
                 'calls); the frozen tables under /verif/tables (each entry one named construct with a reason). '
                 'Decides necessary structural conditions of the property on every path of the current source; '
-                'does not run the library and says nothing about the clauses listed as not decided in DESIGN.md section 5.')
+                'does not run the library and says nothing about the clauses listed as not decided.')
 _LEVEL = ('Static necessary-condition checking: each rule is exact on its structural clause (no heuristics armed), '
           'instances are enumerated from the current source on every run, floors fail closed if anchors vanish. '
           'Chosen because the property quantifies over histories/inputs that no static argument bounds; the clauses '
           'claimed are those whose truth is visible in the shape of the code.')
 
+RULEDOC = {
+ 'SA-ACCT.delta': 'a returned block/byte delta subtracts the same measure before and after the adjustment, and grow/shrink siblings use the same measure',
+ 'SA-ACCT.dropped': 'the delta returned by an accounting producer is never discarded on its way to _finish_add/_finish_remove',
+ 'SA-ACCT.inverse': 'grow and shrink operations of one class adjust the same attributes by inverse amounts of the same unit (never overwrite)',
+ 'SA-ATTR': 'attributes and keyword arguments used by the tools and public methods exist on every class the receiver can have (with isinstance narrowing)',
+ 'SA-COORD': 'a position is computed from the cached coordinates (extents_to_here, offset_to_here, index_in_parent, parent, dr_len) of exactly one record',
+ 'SA-DATE': 'broken-down time fields and the GMT offset come from the same localtime() of the same instant',
+ 'SA-DEDUP': 'duplicate-content linking in genisoimage is dominated by a byte-wise comparison',
+ 'SA-DISPATCH.shadow': 'no alternative of a constant if/elif dispatch is shadowed by an earlier unconditional branch',
+ 'SA-DUPGUARD': 'each insertion primitive refuses duplicates before it inserts',
+ 'SA-DUPGUARD.bypass': 'no caller reaches an insertion primitive with the duplicate check switched off by a user-controlled value',
+ 'SA-ENDIAN': 'both-byte-order copies of a number are packed from one expression, little endian first',
+ 'SA-EXC.explicit': 'every explicit raise reachable from open() constructs a documented exception class',
+ 'SA-EXC.implicit': 'implicit exception sources reachable from open() are covered by the conversion at the API boundary',
+ 'SA-EXC.unbound': 'definite assignment: no local is read on a path that never assigned it (UnboundLocalError is not converted at the boundary)',
+ 'SA-EXC.unbound_tool': 'definite assignment in the tool scripts',
+ 'SA-FIT.ce_block': 'every placement into a Rock Ridge continuation block is implied (linear implication) to lie inside a free gap of the sector',
+ 'SA-FMT': 'struct format hygiene: explicit byte order, sizes agree between pack/unpack/calcsize sites',
+ 'SA-FRESH.inodes': 'only freshly constructed inodes are appended to PyCdlib.inodes (no inode is listed twice)',
+ 'SA-GATE.depth': 'every user-named directory insertion passes the depth predicate',
+ 'SA-GATE.eltorito': 'removing a file passes the El Torito reference gate',
+ 'SA-GATE.iso_name': 'every user-named ISO9660 insertion passes the acceptance predicate of its interchange level',
+ 'SA-GATE.joliet': 'every insertion into the Joliet tree passes the Joliet name gate',
+ 'SA-IDENT': 'tree nodes are told apart by identity (is / id()), never by the content-based __eq__ of DirectoryRecord and friends',
+ 'SA-IDENT.key': 'an extent-to-inode identity map is never looked up with a sentinel key shared by a whole class of records',
+ 'SA-LENBOUND': 'a length stored in a one-byte field is refused above 255 after its last increase',
+ 'SA-OWN.cdfp-handle': 'only the owners rebind the handle of the opened image',
+ 'SA-OWN.children': 'DirectoryRecord.children is mutated only by the sorted insert/remove primitives',
+ 'SA-OWN.derived': 'setters of derived locations are called only from the recomputation pass',
+ 'SA-OWN.dr-extent': 'directory record extents have no writer outside parse and the pass',
+ 'SA-OWN.fi_descs': 'UDF fi_descs is mutated only by its primitives',
+ 'SA-OWN.image': 'nobody but modify_file_in_place writes to the opened image',
+ 'SA-OWN.inode-extent': 'inode extents have no writer outside parse and the pass',
+ 'SA-OWN.inode-set-extent': 'Inode.set_extent_location is called only by _set_inode, which hands the same extent to every linked record',
+ 'SA-OWN.inodes': 'PyCdlib.inodes is written only by the tabulated owners',
+ 'SA-OWN.linked_records': 'Inode.linked_records is written only by the link/unlink primitives',
+ 'SA-OWN.master': 'mastering writes go through the bound-checked writer',
+ 'SA-OWN.needs_reshuffle': 'the stale flag is written only by _finish_add/_finish_remove and the pass',
+ 'SA-OWN.num_udf': 'Inode.num_udf moves only with UDF links',
+ 'SA-OWN.rr_children': 'rr_children is mutated only next to children',
+ 'SA-OWN.space_size': 'the volume space size is written only by the accounting primitives',
+ 'SA-PAIR.link_inode': 'linking a record and registering it with its inode happen together',
+ 'SA-PAIR.offset_cache': 'every mutation of children is followed by the offset recomputation',
+ 'SA-PAIR.removal_cache': 'removals clear the path lookup caches',
+ 'SA-PAIR.rr_children': 'children and rr_children are inserted into / removed from together',
+ 'SA-PAIR.rr_placement': 'every SUSP entry stored in a record or continuation area is accounted with the length() of its own class',
+ 'SA-PAIR.stream': 'the logical stream offset moves with the bytes consumed on every path',
+ 'SA-PAIR.udf_link_count': 'UDF file counts move with the links',
+ 'SA-PAIR.unlink_release': 'removing the last reference of an inode releases it',
+ 'SA-RESHUFFLE.flag': 'every public edit that writes what the recomputation pass reads marks the metadata stale on every normal exit',
+ 'SA-RESHUFFLE.isolation': 'no edit path reads derived state (its behaviour cannot depend on whether the pass already ran)',
+ 'SA-RESHUFFLE.mustwrite': 'inside the pass no update of derived fields is skipped by a test on only some of the inputs it uses',
+ 'SA-RESHUFFLE.pure': 'the recomputation pass has no memory (no accumulation into object state)',
+ 'SA-SEEK.bound': 'no read asks for more than what is left of the file',
+ 'SA-SEEK.copy': 'copy helpers never ask for more than what is left',
+ 'SA-SEEK.opendata': 'the data context manager positions the handle at orig_extent_loc * block size (original data) or fp_offset (new data)',
+ 'SA-SEEK.position': 'the position is re-established on the shared handle before every read',
+ 'SA-SEEK.seekmethod': 'seek/tell arithmetic is consistent for all whence values',
+ 'SA-SENTINEL': 'no `is None` test contradicts the callee contract (the continuation allocator signals failure with -1)',
+ 'SA-SIB.eltorito_entries': 'every enumeration of boot catalog entries covers initial, section and standalone entries',
+ 'SA-SIB.gpt_mirror': 'primary and backup GPT are updated identically',
+ 'SA-SIB.linked_dispatch': 'every dispatch over the records linked to an inode handles all kinds',
+ 'SA-SIB.packing.iso': 'size accounting and mastering break directory sectors by the same canonical inequality',
+ 'SA-SIB.packing.udf': 'UDF FID block stepping and block count use the canonical inequalities of the parser / the accounting',
+ 'SA-SIB.rr_kinds': 'every Rock Ridge kind that parse keeps is re-emitted',
+ 'SA-SIB.tool_none': 'the branches of genisoimage that build ISO paths treat a refused name alike',
+ 'SA-SIB.tool_options': 'option synonym pairs are tested as pairs everywhere',
+ 'SA-SPEC.dates': 'date field layouts equal the standards',
+ 'SA-SPEC.eltorito': 'El Torito record layouts equal the specification',
+ 'SA-SPEC.hybrid': 'MBR/GPT/APM layouts equal the specifications',
+ 'SA-SPEC.iso9660': 'ECMA-119 descriptor, directory record and path table layouts equal the standard',
+ 'SA-SPEC.susp': 'SUSP/RRIP entry layouts equal the standards',
+ 'SA-SPEC.udf': 'ECMA-167/UDF descriptor layouts equal the standards',
+ 'SA-STALEVAR': 'no loop variable is used after its loop where a fresh value was meant',
+ 'SA-STR': 'abstract interpretation of the name-mangling helpers: every derived identifier is accepted by the acceptance predicate of its level',
+ 'SA-STR.tool': 'collision renumbering in genisoimage returns legal names',
+ 'SA-SYM': 'a field emitted from attribute A by record() is parsed back into A by parse()',
+ 'SA-TERM': 'every loop reachable from open() matches a progress idiom with a positive lower bound',
+ 'SA-UNITS': 'GMT offsets are stored in the unit the standard prescribes for that field',
+ 'SA-VBM': 'validate-before-mutate: no persistent write precedes an explicit refusal on any path of a public mutator',
+ 'SA-VBM.reset': 'new()/open() start from freshly initialised state',
+}
 
-def _d(expl, technique, ref):
+# property -> (headline, technique, what is not decided)
+PROP = {
+ 'C01': ('Mastering fidelity, structural part', 'who-may-write tables, pairing rules, sibling inequalities in canonical linear form, dispatch-shadow contradiction rule',
+         'byte-for-byte equality of file data and tree equality after reopen for arbitrary histories (run-time values)'),
+ 'C02': ('Editing preserves the rest, structural part', 'effect extraction, who-may-write, pairing, identity discipline and sibling-enumeration rules',
+         'equality of untouched bytes across generations'),
+ 'C03': ('ECMA-119 validity, structural part', 'struct-format codec model against a spec layout oracle; sibling agreement via canonical linear inequalities; inverse-accounting rule',
+         'ordering of records, path table contents and parent numbers for a given tree (values)'),
+ 'C04': ('Sector allocation, structural part', 'call-graph reachability, who-may-write/who-may-call tables, linear implication for placements, accounting discipline',
+         'non-overlap of concrete extents and exact image length for a given history (sums of run-time sizes)'),
+ 'C05': ('Re-mastering fixpoint, structural part', 'per-field def-use flow between struct.unpack targets and struct.pack arguments; sibling inequalities; dispatch-shadow rule',
+         'byte identity of open+write for arbitrary images'),
+ 'C06': ('Lazy metadata transparency, structural part', 'effect summaries over the call graph; must-pass-through on public method CFGs',
+         'equality of the bytes produced in lazy and always-consistent mode'),
+ 'C07': ('Hard-link semantics, structural part', 'pairing rules over effect extraction; identity discipline; freshness of list members by reaching definitions',
+         'what each name reads after an arbitrary link/unlink history'),
+ 'C08': ('Rock Ridge fidelity, structural part', 'spec oracle; block-level pairing with reaching definitions; linear implication for continuation placements',
+         'names/targets recovered by an independent reader for arbitrary lengths'),
+ 'C09': ('Joliet fidelity, structural part (thin)', 'call-graph must-pass-through (gate); coordinate-consistency rule',
+         'UCS-2 round trip of arbitrary names, independence of the two trees, shared data sectors (values)'),
+ 'C10': ('UDF bridge fidelity, structural part', 'struct-format codec model + spec oracle; accounting discipline; sibling inequalities',
+         'tag checksums/CRCs and reachability for an independent reader (values)'),
+ 'C11': ('El Torito, structural part', 'spec oracle; enumeration completeness; stale-flag must-pass-through; dispatch-shadow rule',
+         'checksum of arbitrary boot files, load addresses after arbitrary histories (values)'),
+ 'C12': ('Hybrid boot data, structural part', 'reaching definitions (stale loop targets); mirror-write comparison; spec oracle; uncompared-input rule inside the pass',
+         'GPT CRCs and CHS geometry arithmetic (values)'),
+ 'C13': ('Namespace rules, structural part', 'dominance of guards over insertions; call-graph must-pass-through; partial evaluation of the predicates',
+         'the language accepted by each predicate versus the documented rules for every string'),
+ 'C14': ('Failure atomicity restricted to explicit refusals', 'interprocedural may-dataflow of persistent writes vs. raise sites with constant-fact specialisation',
+         'exceptions raised implicitly (struct.error, IOError from the user fp) and equality of the bytes written afterwards'),
+ 'C15': ('Hostile images', 'call-graph reachability; loop classification with per-loop progress proofs; definite assignment',
+         'memory proportionality and promptness as quantities'),
+ 'C16': ('Reading files, structural part', 'must/may dataflow on the CFG of each stream method with linear-expression comparison; identity discipline',
+         'equality of the bytes returned with the bytes supplied'),
+ 'C17': ('In-place modification, structural part', 'who-may-write; coordinate-consistency; dispatch exhaustiveness',
+         'that exactly the addressed sectors change (values); validate-before-write ordering (SA-VBW was not built)'),
+ 'C18': ('Derived names are legal', 'abstract interpretation over a finite string domain (sound for the string operations used)',
+         'nothing structural left out; Unicode case-mapping expansion bound (3) is measured from the running interpreter'),
+ 'C19': ('Timestamps, structural part', 'same-source def-use rule; dimension algebra; spec oracle',
+         'correctness of the GMT-offset arithmetic across year/DST boundaries (a function of instant x zone: not decidable by this family)'),
+ 'C20': ('Tools round trip, structural part', 'slot-based attribute checking with narrowing; truth-table comparison of option expressions; definite assignment',
+         'equality of the extracted tree with the source tree'),
+}
+
+
+def _d(pid):
+    from . import registry
+    rids = registry.prop_rules(pid)
+    head, technique, notdecided = PROP[pid]
+    parts = ['%s (%s)' % (RULEDOC.get(r, r), r) for r in rids]
+    expl = '%s: %s. Not decided: %s.' % (head, '; '.join(parts), notdecided)
     return {'explanation': expl, 'technique': technique, 'level_text': _LEVEL, 'level_note': _COMMON_NOTE,
-            'design_ref': ref,
+            'design_ref': 'DESIGN.md section 5/%s' % pid,
             'assumptions': ['type comments in /repo describe the receivers they annotate (used for call resolution only)',
                             'no monkey-patching / dynamic attribute injection beyond the three getattr/setattr idioms handled',
                             'the spec table tables/spec_layout.json was transcribed correctly from the standards']}
 
 
-PROPDOC = {
- 'C01': _d('Mastering fidelity, structural part: volume size is written only by the accounting primitives (SA-OWN.space_size); '
-           'insertion/removal keep the children and rr_children indexes parallel (SA-PAIR.rr_children); the continuation-block '
-           'allocator contract between caller and callee is not contradicted (SA-SENTINEL); accounting deltas are not dropped (SA-ACCT); '
-           'the descriptor inventories created/parsed/assigned/written coincide (SA-SIB.inventory).',
-           'who-may-write tables + pairing rules + reaching-definitions contradiction rule over the ast', 'DESIGN.md 5/C01'),
- 'C02': _d('Editing preserves the rest, structural part: nobody but modify_file_in_place writes to the opened image (SA-OWN.image); '
-           'removal keeps both directory indexes, the link lists and the path caches in step (SA-PAIR.*); every Rock Ridge kind that parse '
-           'keeps is re-emitted (SA-SIB.rr_kinds); all enumerations of boot-catalog entries cover all three collections (SA-SIB.eltorito_entries); '
-           'fields emitted from an attribute are parsed back into it (SA-SYM).',
-           'effect extraction + who-may-write + pairing + sibling-enumeration rules', 'DESIGN.md 5/C02'),
- 'C03': _d('ECMA-119 validity, structural part: field layout of PVD/SVD, directory record, path table record, boot record and terminator '
-           'equals the standard (SA-SPEC.iso9660 against an independent table); both-byte-order copies come from one expression, LE first '
-           '(SA-ENDIAN); format hygiene (SA-FMT); children is mutated only by the sorted-insert/remove primitives and every mutation is '
-           'followed by the offset recomputation (SA-OWN.children, SA-PAIR.offset_cache); size computation and writer pack records by the same '
-           'overflow rule (SA-SIB.packing).',
-           'struct-format codec model compared with a spec layout oracle; sibling agreement via canonical linear inequalities', 'DESIGN.md 5/C03'),
- 'C04': _d('Sector allocation, structural part: accounting discipline (SA-ACCT), derived locations have no writer outside the recomputation '
-           'pass (SA-OWN.derived), Inode.set_extent_location is called only by _set_inode which hands the same extent to all linked records '
-           '(SA-OWN.inode-set-extent), mastering writes go through the bound/overlap-checked writer (SA-OWN.master), unlink releases the blob '
-           '(SA-PAIR.unlink_release), UDF entry counts move with the links (SA-PAIR.udf_link_count), allocator contract (SA-SENTINEL).',
-           'call-graph reachability + who-may-write/who-may-call tables + must-pass-through on the CFG', 'DESIGN.md 5/C04'),
- 'C05': _d('Re-mastering fixpoint, structural part: for all parse/record pairs, a field emitted from attribute A is parsed back into A '
-           '(SA-SYM); Rock Ridge kinds parsed = kinds recorded (SA-SIB.rr_kinds); layouts (SA-SPEC); format hygiene (SA-FMT); written lengths '
-           'equal emitted lengths (SA-LEN); UDF tag discipline (SA-TAG).',
-           'per-field def-use flow between struct.unpack targets and struct.pack arguments', 'DESIGN.md 5/C05'),
- 'C06': _d('Lazy metadata transparency, structural part: the recomputation pass has no memory (no accumulation, SA-RESHUFFLE.pure); readers of '
-           'derived state check the stale flag (SA-RESHUFFLE.gate); public edits that write what the pass reads mark the metadata stale on every '
-           'normal exit (SA-RESHUFFLE.flag); derived state and the flag have no other writers (SA-OWN.derived, SA-OWN.needs_reshuffle).',
-           'effect summaries over the call graph + must-pass-through on public method CFGs', 'DESIGN.md 5/C06'),
- 'C07': _d('Hard-link semantics, structural part: link and inode registration move together (SA-PAIR.link_inode); removing a reference tests '
-           'for the last one and releases the blob (SA-PAIR.unlink_release); every dispatch over the records linked to an inode handles all '
-           'three kinds or sits behind the El Torito gate (SA-SIB.linked_dispatch, SA-GATE.eltorito); enumerations of boot entries are complete '
-           '(SA-SIB.eltorito_entries); one data location per inode (SA-OWN.inode-set-extent).',
-           'pairing rules over effect extraction; isinstance-chain exhaustiveness; dominance of gate calls', 'DESIGN.md 5/C07'),
- 'C08': _d('Rock Ridge fidelity, structural part: SUSP record layouts against the standard (SA-SPEC.susp); every record stored in the directory '
-           'record or continuation area is accounted with the length() of its own class in the same block (SA-PAIR.rr_placement); su_len packed '
-           '= bytes emitted = Class.length (SA-LEN.susp); continuation allocator contract (SA-SENTINEL); kinds parsed = recorded (SA-SIB.rr_kinds).',
-           'block-level pairing with reaching definitions; length algebra over bytes expressions', 'DESIGN.md 5/C08'),
- 'C09': _d('Joliet fidelity, structural part (thin): every insertion into the Joliet tree passes the Joliet name gate, which contains the '
-           'length limit followed by InvalidInput (SA-GATE.joliet); one codec at all encode/decode sites (SA-SIB.joliet_codec); the Joliet VD has '
-           'its own path-table locations and directory pass in the inventories (SA-SIB.inventory).',
-           'call-graph must-pass-through (gate) + literal agreement after codecs.lookup normalisation', 'DESIGN.md 5/C09'),
- 'C10': _d('UDF bridge fidelity, structural part: descriptor layouts against ECMA-167 (SA-SPEC.udf); tag identifier tables new()/parse '
-           'dispatch/standard agree, record() returns tag.record(body)+body, set_extent_location updates the tag location (SA-TAG); FID length '
-           '(SA-LEN.fid); parse/record symmetry (SA-SYM); UDF link count pairing; fi_descs ownership.',
-           'struct-format codec model + spec oracle + tag discipline rules', 'DESIGN.md 5/C10'),
- 'C11': _d('El Torito, structural part: boot record / validation / initial / section layouts (SA-SPEC.eltorito); catalogue capacity constant '
-           'and checksum discipline (SA-LEN.eltorito, SA-SIB.validation_csum); boot-info-table constants agree between all five sites '
-           '(SA-SIB.boot_info); entry enumerations complete (SA-SIB.eltorito_entries); rm_eltorito releases (SA-PAIR.unlink_release).',
-           'spec oracle + constant agreement across sibling sites', 'DESIGN.md 5/C11'),
- 'C12': _d('Hybrid boot data, structural part: no stale loop variable feeds the partition sizes (SA-STALEVAR); primary and backup GPT are '
-           'updated identically (SA-SIB.gpt_mirror); MBR/GPT/APM layouts against the standards (SA-SPEC.hybrid); GPT CRC span and patch offset '
-           '(SA-LEN.gpt); parse/record symmetry by byte offset (SA-SYM).',
-           'reaching definitions (stale loop targets); mirror-write comparison; spec oracle', 'DESIGN.md 5/C12'),
- 'C13': _d('Namespace rules, structural part: each insertion primitive refuses duplicates before inserting (SA-DUPGUARD); every user-named '
-           'insertion passes the namespace acceptance predicate (SA-GATE); accepted names fit the on-disc field (SA-LENBOUND); removal really '
-           'removes (SA-PAIR.rr_children, SA-PAIR.removal_cache); containers have no other writers (SA-OWN).',
-           'dominance of guards over insertions; call-graph must-pass-through; partial evaluation of the predicates', 'DESIGN.md 5/C13'),
- 'C14': _d('Failure atomicity restricted to explicit refusals: for every public mutator and every PyCdlibInvalidInput raise site reachable '
-           'from it, no persistent write precedes the refusal on any CFG path (SA-VBM).',
-           'interprocedural may-dataflow of persistent writes vs. raise sites with constant-fact specialisation', 'DESIGN.md 3/SA-VBM'),
- 'C15': _d('Hostile images: every explicit raise reachable from open constructs a documented class (SA-EXC.explicit); inventory of implicit '
-           'exception sources reachable from open vs. the boundary conversion (SA-EXC.implicit); every parse loop matches a progress idiom '
-           '(SA-TERM).',
-           'call-graph reachability + loop classification with per-loop progress proofs', 'DESIGN.md 3/SA-TERM, SA-EXC'),
- 'C16': _d('Reading files, structural part: the logical offset moves with the bytes consumed on every path (SA-PAIR.stream); the position is '
-           're-established on the shared handle before every read (SA-SEEK.position); no read size beyond the end (SA-SEEK.bound); seek/tell '
-           'consistency (SA-SEEK.seekmethod); the data context manager positions the handle and returns the inode length (SA-SEEK.opendata); '
-           'copy helpers never ask for more than what is left (SA-SEEK.copy).',
-           'must/may dataflow on the CFG of each stream method with linear-expression comparison', 'DESIGN.md 5/C16'),
- 'C17': _d('In-place modification, structural part: only modify_file_in_place writes the opened image (SA-OWN.image); validation precedes the '
-           'first write (SA-VBW); every write is preceded by a seek computed from descriptor/child extents or cached offsets (SA-VBW.seek); the '
-           'dispatch over linked records is exhaustive (SA-SIB.linked_dispatch); offset caches are recomputed by every mutation of children '
-           '(SA-PAIR.offset_cache).',
-           'who-may-write + validate-before-write dataflow + dispatch exhaustiveness', 'DESIGN.md 5/C17'),
- 'C18': _d('Derived names are legal: abstract interpretation of the mangling helpers over a string domain (length interval x character '
-           'classes x dot/semicolon counts) for all inputs and interchange levels, compared with the language extracted from the acceptance '
-           'predicates themselves (SA-STR).',
-           'abstract interpretation over a finite string domain (sound for the string operations used)', 'DESIGN.md 3/SA-STR'),
- 'C19': _d('Timestamps, structural part: broken-down fields and GMT offset come from the same localtime() of the same instant (SA-DATE); the '
-           'offset is stored in the unit the standard prescribes for that field (SA-UNITS); date layouts and parse/record identity at field '
-           'level (SA-SPEC.dates, SA-SYM).',
-           'same-source def-use rule + dimension algebra + spec oracle', 'DESIGN.md 5/C19'),
- 'C20': _d('Tools round trip, structural part: attribute and call-signature existence in the tool scripts (SA-ATTR); the three branches that '
-           'build ISO paths treat a refused name alike and option-pair tests are equivalent to the pair disjunction (SA-SIB.tool); duplicate '
-           'detection is dominated by a byte-wise comparison (SA-DEDUP); collision numbering returns legal distinct names (SA-STR.tool).',
-           'slot-based attribute checking with narrowing; truth-table comparison of option expressions', 'DESIGN.md 5/C20'),
-}
+class _Doc(dict):
+    def get(self, k, default=None):
+        if k in PROP:
+            if k not in self:
+                dict.__setitem__(self, k, _d(k))
+            return dict.__getitem__(self, k)
+        return default
+
+    def __getitem__(self, k):
+        v = self.get(k)
+        if v is None:
+            raise KeyError(k)
+        return v
+
+
+PROPDOC = _Doc()
